@@ -153,8 +153,10 @@ Attribution(cs, k) ==
       m == StageOf(cs, k) IN
   IF DevExplains(SigAt(cs, k), c, o) THEN "posonly"
   ELSE IF m = 0 THEN ""
-  ELSE IF PtFails(AfterAs(cs, m, TRUE, FALSE), c, o) = {} THEN "dropkw"
+  \* "kwignored" (a standing known finding) is tried before "dropkw" (repaired in 860f9fd: its key
+  \* has status fixed, so a call that ONLY the dropkw deviation explains is reported again)
   ELSE IF PtFails(AfterAs(cs, m, FALSE, TRUE), c, o) = {} THEN "kwignored"
+  ELSE IF PtFails(AfterAs(cs, m, TRUE, FALSE), c, o) = {} THEN "dropkw"
   ELSE IF PtFails(AfterAs(cs, m, TRUE, TRUE), c, o) = {} THEN "dropkw+kwignored"
   ELSE ""
 
